@@ -353,11 +353,10 @@ fn oracle_impl(_ctx: &RunCtx, spec: &HistSpec, log: &mut CaseLog, judge_factors:
                     edit(&mem, |pf| add(&mut pf.d1[k], dd))
                 };
                 // two guesses for the ratio of the factors on the run to come: the one observed, and one (equal and opposite offsets)
-                let mut next = current.clone();
                 let mut res = FP::default();
                 for (guess, ratio) in [("w_i/w_j as observed on earlier runs", wi * wj.invert()), ("1 (equal and opposite offsets)", Scalar::ONE)] {
                     let dj = -(d * ratio);
-                    next = current.clone();
+                    let mut next = current.clone();
                     next[i] = mk(i, di, &current[i])?;
                     next[j] = mk(j, dj, &current[j])?;
                     let (ok, r) = run(&ms, &next, action)?;
@@ -466,9 +465,8 @@ fn oracle_impl(_ctx: &RunCtx, spec: &HistSpec, log: &mut CaseLog, judge_factors:
                     };
                     edit(&mem, |pf| add(&mut pf.d1[k], dd))
                 };
-                let mut next = current.clone();
                 for (guess, dp) in dps.into_iter().enumerate() {
-                    next = current.clone();
+                    let mut next = current.clone();
                     next[a] = mk(a, dp, &current[a])?;
                     next[b] = mk(b, dp, &current[b])?;
                     next[q] = mk(q, dq, &current[q])?;
